@@ -35,6 +35,13 @@ TRIAGE = [
 ]
 
 
+# index into TRIAGE -> the side conditions (keys of verify_triage_side_conditions) that entry depends on
+TRIAGE_CONDITIONS = {0: ["info file re-read into a set"], 1: ["groups file re-read into a set"],
+                     2: ["genes/isoforms consumed by set.update only"], 3: ["genes/isoforms consumed by set.update only"],
+                     4: ["genes/isoforms consumed by set.update only"], 5: ["only scores[0][1] is read"],
+                     6: ["list(feature_ids)[0] under is_unique()"]}
+
+
 def _helper_of(prog, rel, qual, f):
     """f is a helper extracted from the triaged function: a function of the same module that `qual` calls (directly or through one more
     helper) and that nothing else calls."""
@@ -86,6 +93,13 @@ def verify_triage_side_conditions(prog, ctx):
         for n in walk_no_nested(fn):
             if isinstance(n, ast.Attribute) and n.attr in ("isoforms", "genes") and isinstance(n.ctx, ast.Load) \
                     and q.split(".")[0] not in ("BasicReadAssignment",) and m.rel in ("src/multimap_resolver.py", DSP):
+                # an equality key: the function only returns a tuple that contains tuple(<x>.isoforms) - the same use as __eq__
+                par = getattr(n, "_parent", None)
+                rets = [r for r in walk_no_nested(fn) if isinstance(r, ast.Return)]
+                key_fn = isinstance(par, ast.Call) and call_name(par) == "tuple" and len(rets) == 1 and isinstance(rets[0].value, ast.Tuple) \
+                    and any(x is par for x in rets[0].value.elts) and len(fn.body) <= 2
+                if key_fn:
+                    continue
                 users.append((q, src(n)))
     ok6 = all(q == "MultimapResolver.filter_assignments" for q, _ in users)
     return {"info file re-read into a set": ok1, "groups file re-read into a set": ok2, "only scores[0][1] is read": ok3,
@@ -116,11 +130,13 @@ def o1(prog, ctx):
         if hit is not None:
             used.add(hit)
             why = TRIAGE[hit][4]
-            conds_ok = all(side.values())
+            # each triage decision rests on its own side condition(s)
+            needs = TRIAGE_CONDITIONS.get(hit, list(side))
+            conds_ok = all(side[k] for k in needs)
             if conds_ok:
                 ctx.ok("O1", "%s:%d" % (m.rel, node.lineno), "%s: %s -- triaged %s" % (kind, text[:70], why[:110]))
             else:
-                bad = [k for k, v in side.items() if not v]
+                bad = [k for k in needs if not side[k]]
                 ctx.fail("O1", node, q, text[:100], "%s; the reason it was triaged benign no longer holds (%s)" % (kind, bad))
         else:
             ctx.fail("O1", node, q, text[:110],
